@@ -7,9 +7,14 @@ Output line:  model-answer \t oracle-verdict
       the history is replayed on the store model, keyed with `currentRecipe` over the real
       `DefaultHasher` values of the harness functions' signature texts (table from T4).
       oracle (on the implementation's answer): every call returned its own function's value
-      `base + Σ args`; otherwise `bad:same-signature-collision[:same-module]` when the value is the
-      own value of another function of the history with the same signature text, else
-      `bad:wrong-value`.
+      `base + Σ args`; otherwise, when the value is the own value of another function of the history
+      with the same signature text: `bad:same-signature-collision:macro-generated` if the two share
+      module path, line and column (one definition site), `…:same-module` if only the module path,
+      plain `bad:same-signature-collision` else; any other value is `bad:wrong-value`.
+      A function T4 cannot place (macro generated, include!-d) is named
+      `~sigtag~arity~module_path~line~column~label`: its site comes from the request, and the unknown
+      `DefaultHasher` value of its signature text is the table's default (equal for equal sigtags,
+      which is all the hit/miss behaviour depends on).
   samesig.key \t qid \t base \t args \t key
       model: `found <own value>` iff `key` is the key the model computes for qid, else `missing`
       (ties T4's prediction and the Lean fold to the key the real macro built).
@@ -29,19 +34,39 @@ def parseArgs (s : String) : Option (List Nat) :=
   if s == "-" then some [] else (s.splitOn ",").mapM natOfDigits
 
 structure Call where
-  site : Gen.MemoSigs.Site
+  qid : String
+  decl : FnDecl
+  arity : Nat
   base : Nat
   args : List Nat
 
 def Call.own (c : Call) : Nat := c.base + c.args.sum
-def Call.fn (c : Call) : MemoFn := ⟨declOf c.site, fun a => c.base + a.sum⟩
+def Call.fn (c : Call) : MemoFn := ⟨c.decl, fun a => c.base + a.sum⟩
+
+def utf8 (s : String) : Memo.Bytes := s.toUTF8.toList.map UInt8.toNat
+
+/-- `qid ↦ (declaration, arity)`: from T4's table, or from the request for a `~…` name -/
+def resolve (qid : String) : Option (FnDecl × Nat) :=
+  if qid.startsWith "~" then
+    match qid.splitOn "~" with
+    | ["", tag, arityS, mp, lineS, colS, label] =>
+      match natOfDigits arityS, natOfDigits lineS, natOfDigits colS with
+      | some ar, some l, some c =>
+        if tag.isEmpty || mp.isEmpty || label.isEmpty then none
+        else some ({ modulePath := utf8 mp, line := l, col := c, name := utf8 label, sigText := utf8 ("~" ++ tag) }, ar)
+      | _, _, _ => none
+    | _ => none
+  else
+    match Gen.MemoSigs.harnessSites.filter (fun st => st.qid == qid) with
+    | [st] => some (declOf st, st.arity)
+    | _ => none
 
 def parseCall (s : String) : Option Call :=
   match s.splitOn "/" with
   | [qid, baseS, argS] =>
-    match Gen.MemoSigs.harnessSites.filter (fun st => st.qid == qid), baseS.toNat?, parseArgs argS with
-    | [st], some base, some args =>
-      if baseS.toList.all Char.isDigit && args.length == st.arity then some ⟨st, base, args⟩ else none
+    match resolve qid, baseS.toNat?, parseArgs argS with
+    | some (d, ar), some base, some args =>
+      if baseS.toList.all Char.isDigit && args.length == ar then some ⟨qid, d, ar, base, args⟩ else none
     | _, _, _ => none
   | _ => none
 
@@ -59,9 +84,11 @@ def histVerdict (calls : List Call) (impl : List String) : String :=
       | some n =>
         if n == c.own then go cs vs
         else
-          match calls.find? (fun o => o.site.qid != c.site.qid && o.site.sig == c.site.sig && o.base + c.args.sum == n) with
+          match calls.find? (fun o => o.qid != c.qid && o.decl.sigText == c.decl.sigText && o.base + c.args.sum == n) with
           | some o =>
-            if o.site.modulePath == c.site.modulePath then "bad:same-signature-collision:same-module"
+            if o.decl.modulePath == c.decl.modulePath && o.decl.line == c.decl.line && o.decl.col == c.decl.col then
+              "bad:same-signature-collision:macro-generated"
+            else if o.decl.modulePath == c.decl.modulePath then "bad:same-signature-collision:same-module"
             else "bad:same-signature-collision"
           | none => "bad:wrong-value"
     | _, _ => "ok"
@@ -80,10 +107,11 @@ def hist (args impl : List String) : String :=
 def keyProbe (args impl : List String) : String :=
   match args with
   | [qid, baseS, argS, keyS] =>
-    match parseCall (qid ++ "/" ++ baseS ++ "/" ++ argS), (if keyS.toList.all Char.isDigit then keyS.toNat? else none) with
+    match (if qid.startsWith "~" then none else parseCall (qid ++ "/" ++ baseS ++ "/" ++ argS)),
+        (if keyS.toList.all Char.isDigit then keyS.toNat? else none) with
     | some c, some key =>
       if key ≥ 2 ^ 64 then "bad-request\tok" else
-      let model := if modelKey (declOf c.site) == key then s!"found {c.own}" else "missing"
+      let model := if modelKey c.decl == key then s!"found {c.own}" else "missing"
       let verdict :=
         match impl with
         | ["missing"] => "ok"
